@@ -213,6 +213,14 @@ def main():
         short = key.split("::", 1)[1] if "::" in key else key
         if prop in REVIEW_ONLY.get(short, ()):
             undecided.append({"reason": "%s changed: the property rests on the reviewed shape of this function (no contract, no unit can decide it)" % short, "rendered": ""})
+    if prop == "C01":
+        # C01 (no panic on any input) is claimed for the verified and unit-checked functions only; an edit of a
+        # function outside every engine (dump code, TextCollector, Display/Debug impls ...) cannot be judged
+        all_units = kani_run.units()
+        for key in changed:
+            short = key.split("::", 1)[1] if "::" in key else key
+            if short not in REVIEW_ONLY and not any(kani_run.touches(u, [key]) for u in all_units):
+                undecided.append({"reason": "%s changed: it is outside Verus's subset and no Kani unit checks it, so C01 cannot be decided for it" % short, "rendered": ""})
     if changed and kres.get("timeouts"):
         late = [u["name"] for u in kani_run.units() if u["name"] in kres["timeouts"] and kani_run.touches(u, changed)]
         if late:
